@@ -709,3 +709,26 @@ func init() {
 		})
 	}
 }
+
+// ---- errors.Is: a deterministic relation between an error value and a target (the chain walk is not modelled);
+// reflexive, and nothing but nil "is" nil ----
+func errIsTerm(x *FnExec, e, target string) string {
+	x.q.declareFun("err_is", []string{"Iface", "Iface"}, "Bool")
+	t := fmt.Sprintf("(err_is %s %s)", e, target)
+	x.q.assert(implies(eq(e, target), t))
+	x.q.assert(implies(eq(e, "inil"), eq(t, eq(target, "inil"))))
+	return t
+}
+
+func init() {
+	regLib("errors.Is", func(x *FnExec, fr *frame, n *node, in ssa.Instruction, c *ssa.CallCommon, args []Val, reach, hint string) (Val, error) {
+		x.trusted["errors.Is: a deterministic relation of (error, target), reflexive; wrapping chains not modelled"] = true
+		return Val{S: x.q.define(hint, "Bool", errIsTerm(x, args[0].S, args[1].S)), T: types.Typ[types.Bool]}, nil
+	})
+	specLibFuncs["errIs"] = func(x *FnExec, c *evalCtx, args []Val) (Val, error) {
+		if len(args) != 2 {
+			return Val{}, fmt.Errorf("errIs(err, target)")
+		}
+		return Val{S: errIsTerm(x, args[0].S, args[1].S), T: types.Typ[types.Bool]}, nil
+	}
+}
